@@ -7,6 +7,7 @@ mod c06;
 mod c07;
 mod sys;
 mod c12;
+mod c16;
 
 fn main() {
     ex::install_panic_hook();
@@ -22,6 +23,7 @@ fn main() {
         "c06" => c06::run(rest),
         "c07" => c07::run(rest),
         "c12" => c12::run(rest),
+        "c16" => c16::run(rest),
         other => {
             eprintln!("unknown command {other}");
             std::process::exit(2);
